@@ -198,7 +198,9 @@ def run(ctx):
             fil.write("x")
         EXC = [RuntimeError, NotImplementedError, PermissionError,
                TimeoutError, KeyError, ArithmeticError, FileNotFoundError,
-               AssertionError, StopIteration, LookupError]
+               AssertionError, StopIteration, LookupError,
+               # the two classes the request cycle answers with silence
+               ConnectionResetError, BrokenPipeError, SystemExit]
         plan = [combo + (rng.choice(EXC + [RuntimeError]),)
                 for combo in combos]
         # every class at every site once with debug plainly off and on
@@ -334,6 +336,35 @@ def run(ctx):
                                                   TOKEN.encode())):
                 ctx.violation("detail-disclosed-with-debug-off",
                               dict(detail, page="directory"))
+        # ------------------------------------------------ histories: an
+        # override belongs to its request; the next request of the same
+        # application is judged by its own override or the attribute
+        hist = [None, "On", None, "", "Off", None, "oN", "off", None, "On",
+                "0", None]
+        for attr in (None, False, True):
+            app = new_app()
+            if attr is not None:
+                app.debug = attr
+
+            def failing(req):
+                raise RuntimeError(TOKEN)
+            app.set_route("/boom", failing, 511)
+            for step, ov in enumerate(hist):
+                extra = {} if ov is None else {"poor_Debug": ov}
+                eff = spec_effective(bool(attr), ov)
+                boom = call(app, environ(path="/boom", extra=extra))
+                dbg = call(app, environ(path="/debug-info", extra=extra))
+                unk = call(app, environ(path="/no-such-path", extra=extra))
+                det = {"attr": attr, "history": hist[:step + 1],
+                       "override_of_this_request": ov, "effective": eff,
+                       "status_500": boom.status, "debug_info": dbg.status}
+                ctx.case(("history", attr, step), step > 0, det)
+                ctx.count("history")
+                leak = TOKEN.encode() in (boom.body or b"")
+                page = b"Poor Wsgi Debug" in (dbg.body or b"")
+                if leak != eff or page != eff or \
+                        (not eff and dbg.code != unk.code):
+                    ctx.violation("override-outlives-its-request", det)
     finally:
         os.environ.pop("poor_Debug", None)
         if saved_env is not None:
